@@ -17,6 +17,34 @@ XmlExpressible(q) == q[1].k \in {"iri", "bnode"} /\ q[2].k = "iri" /\ HasNcNameS
 \* XML 1.0 Char
 XmlChar(c) == c \in {9, 10, 13} \/ (c >= 32 /\ c <= 55295) \/ (c >= 57344 /\ c <= 65533) \/ c >= 65536
 TextLegal(q) == \A j \in 1..3 : q[j].k = "lit" => \A i \in 1..Len(q[j].lex) : XmlChar(q[j].lex[i])
+RdfType == <<104, 116, 116, 112, 58, 47, 47, 119, 119, 119, 46, 119, 51, 46, 111, 114, 103, 47, 49, 57, 57, 57, 47, 48, 50, 47, 50, 50, 45, 114, 100, 102, 45, 115, 121, 110, 116, 97, 120, 45, 110, 115, 35, 116, 121, 112, 101>> \* rdf:type
+RdfList == <<104, 116, 116, 112, 58, 47, 47, 119, 119, 119, 46, 119, 51, 46, 111, 114, 103, 47, 49, 57, 57, 57, 47, 48, 50, 47, 50, 50, 45, 114, 100, 102, 45, 115, 121, 110, 116, 97, 120, 45, 110, 115, 35, 76, 105, 115, 116>> \* rdf:List
+RdfFirst == <<104, 116, 116, 112, 58, 47, 47, 119, 119, 119, 46, 119, 51, 46, 111, 114, 103, 47, 49, 57, 57, 57, 47, 48, 50, 47, 50, 50, 45, 114, 100, 102, 45, 115, 121, 110, 116, 97, 120, 45, 110, 115, 35, 102, 105, 114, 115, 116>> \* rdf:first
+RdfRest == <<104, 116, 116, 112, 58, 47, 47, 119, 119, 119, 46, 119, 51, 46, 111, 114, 103, 47, 49, 57, 57, 57, 47, 48, 50, 47, 50, 50, 45, 114, 100, 102, 45, 115, 121, 110, 116, 97, 120, 45, 110, 115, 35, 114, 101, 115, 116>> \* rdf:rest
+I18nNs == <<104, 116, 116, 112, 115, 58, 47, 47, 119, 119, 119, 46, 119, 51, 46, 111, 114, 103, 47, 110, 115, 47, 105, 49, 56, 110, 35>> \* https://www.w3.org/ns/i18n#
+RdfValue == <<104, 116, 116, 112, 58, 47, 47, 119, 119, 119, 46, 119, 51, 46, 111, 114, 103, 47, 49, 57, 57, 57, 47, 48, 50, 47, 50, 50, 45, 114, 100, 102, 45, 115, 121, 110, 116, 97, 120, 45, 110, 115, 35, 118, 97, 108, 117, 101>> \* rdf:value
+RdfDirection == <<104, 116, 116, 112, 58, 47, 47, 119, 119, 119, 46, 119, 51, 46, 111, 114, 103, 47, 49, 57, 57, 57, 47, 48, 50, 47, 50, 50, 45, 114, 100, 102, 45, 115, 121, 110, 116, 97, 120, 45, 110, 115, 35, 100, 105, 114, 101, 99, 116, 105, 111, 110>> \* rdf:direction
+RdfLanguage == <<104, 116, 116, 112, 58, 47, 47, 119, 119, 119, 46, 119, 51, 46, 111, 114, 103, 47, 49, 57, 57, 57, 47, 48, 50, 47, 50, 50, 45, 114, 100, 102, 45, 115, 121, 110, 116, 97, 120, 45, 110, 115, 35, 108, 97, 110, 103, 117, 97, 103, 101>> \* rdf:language
+StartsWith(v, pre) == Len(v) >= Len(pre) /\ SubSeq(v, 1, Len(pre)) = pre
+\* --- named deviations of the third-party JSON-LD processor (json-ld-core 0.15.1) used by the parser ---
+\* (a) rdfDirection=i18n-datatype, no language: it writes i18n#<dir> where JSON-LD 1.1 (toRdf 13.3.1) prescribes i18n#_<dir>
+LibI18n(t) == IF t.k = "lit" /\ StartsWith(t.dt, I18nNs \o <<95>>) THEN [t EXCEPT !.dt = I18nNs \o SubSeq(t.dt, Len(I18nNs) + 2, Len(t.dt))] ELSE t
+\* (b) rdfDirection=compound-literal: it mints the blank node but never emits its rdf:value / rdf:direction / rdf:language statements
+IsCL(D, c, g) == LET P == {q \in D : q[1] = c /\ q[4] = g} IN
+    /\ c.k = "bnode" /\ P # {}
+    /\ \A q \in P : q[2].v \in {RdfValue, RdfDirection, RdfLanguage} /\ q[3].k = "lit"
+    /\ \A pv \in {RdfValue, RdfDirection} : Cardinality({q \in P : q[2].v = pv}) = 1
+    /\ Cardinality({q \in P : q[2].v = RdfLanguage}) <= 1
+    /\ \A q \in D : q[1] = c => q[4] = g                              \* described in this graph only
+    /\ \A q \in D : q[4] # c                                          \* does not name a graph
+    /\ Cardinality({q \in D : q[3] = c}) = 1 /\ \E q \in D : q[3] = c /\ q[4] = g  \* referenced exactly once, from that graph
+CLQuads(D) == {q \in D : IsCL(D, q[1], q[4])}
+CLObj(D, c, g) == LET f(pv) == LET S == {q \in D : q[1] = c /\ q[4] = g /\ q[2].v = pv} IN IF S = {} THEN <<>> ELSE (CHOOSE q \in S : TRUE)[3].lex
+                  IN [v |-> f(RdfValue), lang |-> f(RdfLanguage), dir |-> f(RdfDirection)]
+I18nObj(t) == LET rest == SubSeq(t.dt, Len(I18nNs) + 1, Len(t.dt))
+                  u == CHOOSE i \in 1..Len(rest) : rest[i] = 95 /\ \A j \in 1..(i-1) : rest[j] # 95
+              IN [v |-> t.lex, lang |-> SubSeq(rest, 1, u - 1), dir |-> SubSeq(rest, u + 1, Len(rest))]
+IsI18nDir(t) == t.k = "lit" /\ StartsWith(t.dt, I18nNs) /\ \E i \in (Len(I18nNs) + 1)..(Len(t.dt) - 1) : t.dt[i] = 95
 JudgeOut(e, o, D) ==
   IF ~o.ok THEN (IF e.serok THEN "output-does-not-parse" ELSE "serializer-failed")
   ELSE IF Len(o.quads) # Cardinality({NormQ(q) : q \in SetOfSeq(o.quads)}) THEN "statement-written-twice"
@@ -28,7 +56,29 @@ Judge(e) ==
   IF e.ev = "Died" THEN "process-died-or-hung"
   ELSE IF e.ev # "RT" THEN "panic"
   ELSE IF e.fmt \in {"turtle", "trig"} THEN JudgeOut(e, e.out, SetOfSeq(e["in"]))
-  ELSE IF e.fmt = "jsonld" THEN JudgeOut(e, e.out, {q \in SetOfSeq(e["in"]) : JsonLdExpressible(q)})
+  ELSE IF e.fmt = "jsonld" THEN
+       LET D == {q \in SetOfSeq(e["in"]) : JsonLdExpressible(q)}
+           v == JudgeOut(e, e.out, D)
+           \* named deviation (W3C "Serialize RDF as JSON-LD", step 6.4: a list cell may carry rdf:type rdf:List, which @list does not keep)
+           T == {q \in D : /\ q[1].k = "bnode" /\ q[2].v = RdfType /\ q[3].k = "iri" /\ q[3].v = RdfList
+                            /\ \E a, b \in D : /\ a[1] = q[1] /\ a[4] = q[4] /\ a[2].v = RdfFirst
+                                                /\ b[1] = q[1] /\ b[4] = q[4] /\ b[2].v = RdfRest}
+           \* what the document itself must say about base directions (bag of value objects with @direction)
+           wantDir == IF e.opts.dir = 1 THEN {<<q, I18nObj(q[3])>> : q \in {q \in D : IsI18nDir(q[3])}}
+                      ELSE IF e.opts.dir = 2 THEN {<<q, CLObj(D, q[1], q[4])>> : q \in {q \in CLQuads(D) : q[2].v = RdfValue}}
+                      ELSE {}
+           dirOk == /\ Len(e.dirobjs) = Cardinality(wantDir)
+                    /\ \A w \in wantDir : Cardinality({x \in wantDir : x[2] = w[2]}) = Cardinality({i \in 1..Len(e.dirobjs) : e.dirobjs[i] = w[2]})
+           Dlib == IF e.opts.dir = 1 THEN {<<q[1], q[2], LibI18n(q[3]), q[4]>> : q \in D}
+                   ELSE IF e.opts.dir = 2 THEN D \ CLQuads(D) ELSE D
+           devName == IF e.opts.dir = 1 THEN "lib-deviation:i18n-datatype-without-language" ELSE "lib-deviation:compound-literal-statements-not-emitted"
+       IN IF ~e.serok \/ ~e.out.ok THEN v
+          ELSE IF ~dirOk THEN "document-has-wrong-direction-objects"
+          ELSE IF v = "ok" THEN v
+          ELSE IF ~e.opts.use_rdf_type /\ \E S \in SUBSET T : S # {} /\ JudgeOut(e, e.out, D \ S) = "ok" THEN "typed-list-cell-loses-rdf-type"
+          ELSE IF Dlib # D /\ JudgeOut(e, e.out, Dlib) = "ok" THEN devName
+          ELSE IF Dlib # D /\ ~e.opts.use_rdf_type /\ \E S \in SUBSET T : S # {} /\ JudgeOut(e, e.out, Dlib \ S) = "ok" THEN devName
+          ELSE v
   ELSE \* RDF/XML: Err always allowed unless everything is expressible and XML-legal; result independent of the indentation
        LET D == {q \in SetOfSeq(e["in"]) : XmlExpressible(q)}
            allOk == \A q \in SetOfSeq(e["in"]) : XmlExpressible(q) /\ TextLegal(q)
